@@ -112,4 +112,13 @@ CLAIMS["C11"] = dict(
     note=(TRUST + "Not decided: liveness and fairness over all schedules; Semaphore::value() reads without the lock (not among the property's operations)."),
 )
 
+CLAIMS["C20"] = dict(
+    level="other",
+    technique="static analysis: overload-family and intrinsic width/guard rules over the typed AST, symbolic bit-provenance evaluation of the shift/mask fall-backs, overflow-before-narrowing rule, exact rational identity test of the extracted Aggregate formulas, pre-state purity (read-after-overwrite) rule",
+    text=("FAMILY-COMPLETE, INTRINSIC-WIDTH, INTRINSIC-GUARD, SIGNED-FORWARD for nine helper families x six integer types; BIT-PROVENANCE decides bswap16/32/64_generic and "
+          "rol/ror32/64_generic completely (all bits, all rotation amounts); NO-OVERFLOW-BEFORE-NARROW (found and fixed: round_down_to_power_of_two, div_ceil, round_up), BOOL-TOTAL; "
+          "Aggregate PRESTATE-PURITY (found and fixed: operator+= variance), PLUS-TWINS, COMBINE-FORMULA, DIV-GUARD (found and fixed: NaN for two empty operands), ADD-ORDER."),
+    note=(TRUST + "Not decided: the loop-based generic templates (clz/ctz/ffs/integer_log2), popcount SWAR arithmetic, agreement of intrinsics with their definition (trusted compiler), floating-point rounding."),
+)
+
 NOT_APPLICABLE = {}
